@@ -7,6 +7,7 @@ import (
 	"sort"
 	"strings"
 	"sync"
+	"sync/atomic"
 	"time"
 
 	"go.nanomsg.org/mangos/v3"
@@ -129,6 +130,13 @@ type c09Sock struct {
 	w    *hx.PipeWatch
 	want int
 	what string
+
+	// replace cases (c09_replace_test.go)
+	det  int             // detach events expected so far
+	live int             // connections expected to be up
+	l    mangos.Listener // the socket's one listener (made when first dialled)
+	ltr  string          // its transport
+	gone atomic.Bool     // closed by the harness
 }
 
 type c09Rig struct {
@@ -165,6 +173,19 @@ func (r *c09Rig) setTTL(s *c09Sock, v int) {
 }
 
 func (r *c09Rig) connect(lst, dl *c09Sock) bool {
+	tr := r.pickTr()
+	r.trs = append(r.trs, tr[1:2])
+	if _, _, err := hx.Connect(lst.s, dl.s, tr); err != nil {
+		r.c.Inconclusive("connect %s -> %s over %s: %v", dl.what, lst.what, tr, err)
+		return false
+	}
+	lst.want++
+	dl.want++
+	return true
+}
+
+// pickTr: the transport of the next connection, according to the case's transport policy.
+func (r *c09Rig) pickTr() string {
 	tr := r.sp.Tr
 	switch tr {
 	case "mix", "":
@@ -196,14 +217,7 @@ func (r *c09Rig) connect(lst, dl *c09Sock) bool {
 			tr = "inproc"
 		}
 	}
-	r.trs = append(r.trs, tr[1:2])
-	if _, _, err := hx.Connect(lst.s, dl.s, tr); err != nil {
-		r.c.Inconclusive("connect %s -> %s over %s: %v", dl.what, lst.what, tr, err)
-		return false
-	}
-	lst.want++
-	dl.want++
-	return true
+	return tr
 }
 
 // tap joins dl -> lst through the harness: dl dials a vt endpoint, lst listens on another.
